@@ -290,6 +290,9 @@ func genRR(r *rng, sz int) *rtcp.ReceiverReport {
 
 func genItem(r *rng, sz int, cname bool) rtcp.SourceDescriptionItem {
 	t := rtcp.SDESType(1 + r.intn(8))
+	if r.chance(12) {
+		t = rtcp.SDESType(9 + r.intn(247)) // an item type the library has no name for
+	}
 	if cname {
 		t = rtcp.SDESCNAME
 	}
